@@ -161,3 +161,30 @@ def c02(seed, tier, broken):
             found.append(dict(match="graph-chi2-sum", kind="graph_chi2", impl=gc, spec=total, desc=desc))
             return dict(found=found, evaluations=ev)
     return dict(found=found, evaluations=ev)
+
+
+def c12(seed, tier, broken):
+    from search import optimizer as O
+
+    w, ev = O.search_report(seed, _n(tier, broken, 25, 500))
+    return dict(found=[w] if w else [], evaluations=ev)
+
+
+def c03(seed, tier, broken):
+    from search import optimizer as O
+
+    w, ev, skipped = O.search_step(seed, _n(tier, broken, 60, 3000))
+    return dict(found=[w] if w else [], evaluations=ev, skipped_ill_conditioned=skipped)
+
+
+def c06(seed, tier, broken):
+    from search import optimizer as O
+
+    w, ev, outcomes = O.search_fixed(seed, _n(tier, broken, 80, 4000))
+    found = [w] if w else []
+    if not found:
+        w2, ev2, _ = O.search_step(seed, _n(tier, broken, 30, 1000))
+        ev += ev2
+        if w2:
+            found.append(w2)
+    return dict(found=found, evaluations=ev, outcomes=outcomes)
